@@ -117,59 +117,33 @@ pub struct Mon {
     pub closed_pairs: BTreeSet<u64>,
 }
 
-/// Packets of a delivered datagram that are certainly genuine: those lying entirely inside the
-/// prefix the network left untouched.
+/// Packets of a delivered datagram that are certainly genuine (see `Dgram::untouched`), decoded.
 fn intact_packets(d: &Dgram, cid_len: usize) -> Vec<DecodedPacket> {
     let mut out = vec![];
-    let mut off = 0;
-    while off < d.intact.min(d.data.len()) {
-        let Ok(pkt) = wire::parse_packet(&d.data[off..], cid_len) else { break };
-        let mut end = off + pkt.len;
-        if pkt.ty == PType::Short {
-            // a short-header packet extends to the end of the genuine datagram
-            if d.intact < d.data.len() || d.forged && d.intact != d.data.len() {
-                if d.intact < d.data.len() {
-                    // appended garbage: the genuine packet ended at `intact`
-                    end = d.intact;
-                } else {
-                    break;
-                }
-            }
-        }
-        if end > d.intact || end > d.data.len() {
-            break;
-        }
-        let bytes = &d.data[off..end];
+    for (_, off, len) in d.untouched() {
+        let bytes = &d.data[off..off + len];
+        let Ok(pkt) = wire::parse_packet(bytes, cid_len) else { continue };
         let h = pkt.header_len();
         let frames = match pkt.ty {
             PType::Retry | PType::VersionNegotiation => vec![],
             _ => {
                 if bytes.len() < h + 16 {
-                    break;
+                    continue;
                 }
                 match wire::decode_frames(&bytes[h..bytes.len() - 16]) {
                     Ok(f) => f,
-                    Err(_) => break,
+                    Err(_) => continue,
                 }
             }
         };
         out.push(DecodedPacket { pkt, frames, size: bytes.len() });
-        off = end;
     }
     out
 }
 
-/// Packet types lying entirely inside the untouched prefix (works on any crypto lane).
+/// Types of the genuine packets of a delivered datagram (works on any crypto lane).
 fn intact_types(d: &Dgram) -> Vec<PType> {
-    let mut out = vec![];
-    let mut off = 0;
-    for (ty, len) in wire::split_types(&d.data) {
-        if off + len <= d.intact || (ty == PType::Short && off < d.intact && !d.forged) {
-            out.push(ty);
-        }
-        off += len;
-    }
-    out
+    d.untouched().into_iter().map(|x| x.0).collect()
 }
 
 impl Mon {
@@ -357,6 +331,9 @@ impl Mon {
         }
         if cm.is_server {
             let types = intact_types(d);
+            if std::env::var("QV_C07_DEBUG").is_ok() {
+                eprintln!("C07DEBUG rx {ei}/{ch} from {} len {} intact {} forged {} types {:?} split {:?}", d.src, d.data.len(), d.intact, d.forged, types, wire::split_types(&d.data));
+            }
             if types.iter().any(|t| *t == PType::Handshake) {
                 let p = cm.paths.entry(d.src).or_default();
                 if !p.validated {
